@@ -1,2 +1,72 @@
-(* C04 placeholder *)
-From MPB Require Import Base.
+(* C04 — Frames redraw in place: the terminal never shows stale or duplicated rows.
+   The screen is the line-level terminal of Term.v applied to the Write calls of the
+   acceptor (Container.step); proofs in ContainerOut.v and Term.v.
+   Columns ("each frame fits in columns") are C09/C07's width theorems.
+   Modelled, not proved: the byte-level ANSI interpretation (the harness's terminal
+   emulator turns bytes into the items of this model and the c04 monitor checks the
+   emulated screen); the terminal's height enters only through
+   [C04_frame_fits_rows] and [C04_redraw_needs_a_spare_row]. *)
+From MPB Require Import Base BaseProofs BarState Container ContainerProofs ContainerOut Term.
+
+(* every frame replaces exactly the live rows of the frame before it: what is above them
+   (text, popped-out bars) is untouched, nothing of the old rows is left over, and the
+   next frame's cursor-up equals this frame's live rows *)
+Theorem C04_frame_redraws_in_place : forall p a d evs s n pc s',
+  run (init_cst p a d) evs = Some s -> step s (CT_FRAME n pc) = Some s' -> delayed s = false -> outframes s' <> outframes s ->
+  exists hist lv txt rows,
+    screen s = hist ++ lv /\ all_text txt = true /\ all_row rows = true /\ Z.of_nat (length rows) = n /\
+    screen s' = hist ++ txt ++ rows /\
+    cwbuf s' = cuu_items (Z.max 0 (n - pc)) /\ 0 <= pc <= n.
+Proof. exact frame_redraws_in_place. Qed.
+Print Assumptions C04_frame_redraws_in_place.
+
+(* the cursor-up count at the head of the writer's buffer always equals the live region *)
+Theorem C04_cursor_up_matches_live_rows : forall p a d evs s,
+  run (init_cst p a d) evs = Some s ->
+  exists k txt, 0 <= k /\ cwbuf s = cuu_items k ++ txt /\ all_text txt = true /\
+     (delayed s = false -> exists hist lv, screen s = hist ++ lv /\ Z.of_nat (length lv) = k).
+Proof. intros p a d evs s R. exact (out_buf _ (oi_out _ (reachable_OInv _ _ _ _ _ R))). Qed.
+Print Assumptions C04_cursor_up_matches_live_rows.
+
+Theorem C04_frame_fits_rows : forall p a d evs s wd ht rows n pc pu,
+  run (init_cst p a d) evs = Some s -> ph s = Rendering wd ht rows n pc pu -> Z.of_nat (length rows) <= Z.max 0 ht.
+Proof. exact frame_fits_rows. Qed.
+Print Assumptions C04_frame_fits_rows.
+
+Theorem C04_nothing_before_delay_ends : forall p a d evs s,
+  run (init_cst p a d) evs = Some s -> delayed s = true -> outframes s = [].
+Proof. exact nothing_before_delay_ends. Qed.
+Print Assumptions C04_nothing_before_delay_ends.
+
+(* on a terminal of h rows the redraw is exact whenever the live region leaves one row spare *)
+Theorem C04_redraw_on_a_window : forall h hist lv k body,
+  Z.of_nat (length lv) = k -> k <= h - 1 -> forallb (fun i => negb (is_cuu i)) body = true ->
+  apply_frame_h h (hist ++ lv) (cuu_items k ++ body) = hist ++ body.
+Proof. exact redraw_in_place_h. Qed.
+Print Assumptions C04_redraw_on_a_window.
+
+(* ... and not otherwise: [C04_frame_fits_rows] allows a frame of exactly [height] rows, and then the
+   top row is out of reach of the cursor-up and stays behind.  The harness keeps frames
+   below the window height (clipped cycles are out of the c04 monitor's domain). *)
+Theorem C04_redraw_needs_a_spare_row :
+  exists h lv body, Z.of_nat (length lv) = h /\
+    apply_frame_h h lv (cuu_items h ++ body) <> body.
+Proof.
+  exists 2, [IRow 0 1 5 false false; IRow 1 1 5 false false], [IRow 0 2 5 false false; IRow 1 2 5 false false].
+  split; [reflexivity|]. vm_compute. discriminate.
+Qed.
+Print Assumptions C04_redraw_needs_a_spare_row.
+
+Example C04_nonvacuous :
+  exists s, run (init_cst false true false)
+    [CT_OP; CT_ADD 0 0 0 5 None None false false true 0 false; HM_PUSH 0 true 0 false 0;
+     CL_WRITE 7 0 1; CT_IO;
+     CT_RENDERBEGIN; HM_SYNC 1 true 0; HM_ITERREQ true 1; CT_RENDERSIZE 80 24;
+     BAR_RENDER 0 0 5 0 false false 0; BAR_OP 0 0 5 0 true false false 0; HM_POP 0 0;
+     CT_FLUSHBAR 0 0 1 false false false; CT_FRAME 1 0; OUT [IText 7 0 0; IRow 0 0 5 false false];
+     HM_PUSH 0 false 0 false 1;
+     CT_RENDERBEGIN; HM_SYNC 1 false 1; HM_ITERREQ true 1; CT_RENDERSIZE 80 24;
+     BAR_RENDER 0 0 5 0 false false 0; BAR_OP 0 0 5 0 true false false 0; HM_POP 0 0;
+     CT_FLUSHBAR 0 0 1 false false false; CT_FRAME 1 0; OUT [ICuu 1; IRow 0 0 5 false false]] = Some s
+  /\ screen s = [IText 7 0 0; IRow 0 0 5 false false].
+Proof. eexists. vm_compute. repeat split. Qed.
